@@ -18,6 +18,9 @@ CLAIMS = {
     "C01": ("spec/DocClean.tla, MC_DocClean.tla",
             "TLC enumerates every canonical doccomment block over the character-class alphabet (indentation x body lines, with and without '#' leaders) and checks C01_CleanIsIdentity on the transcription of clean_doc_lines; every block is replayed into the real function, and a stratified share goes through the whole pipeline attached to each of 13 entry kinds at nesting depth 0-2, where the doc lines must appear once, contiguously, verbatim and inside the item's directive.",
             "bounded line length / line count / class alphabet (one non-ASCII class); concretiser pools seeded", "4 C01"),
+    "C04": ("spec/DocClean.tla, CMakeLex.tla/CMakeGen.tla, Aggregator.tla (witness programs)",
+            "(a) TLC checks C04_IndentIrrelevant on clean_doc_lines for every block x indentation and replays indented/unindented pairs on the real function; (b) TLC checks that the same tokens under any trivia of the catalogue lex to the same tokens (RefAgree on the comment-rich menu), replayed on the real lexer/parser; (c) every witness program of the aggregator model is run through the real pipeline in a baseline layout and in seeded variant layouts (catalogue trivia between all tokens, re-indented doccomments, re-cased names, CRLF) and the pages compared byte for byte.",
+            "trivia only between tokens with a whitespace kept between arguments; variants are a seeded sample of the layout space", "4 C04"),
     "C05": ("spec/CMakeLex.tla, CMakeGen.tla, MC_C05.tla, TraceLex.tla",
             "The generated lexer is modelled as the step machine ANTLR runs (parallel rules by derivatives, last-accept register, rule priority, non-greedy stop, EOF symbol, error recovery); TLC builds files from the productions of cmake-language(7) with boundaries known by construction and checks RefAgree; every file is run through the real lexer/parser/Documenter (acceptance, command sequence, argument texts and positions); token streams and error spans of the real lexer on fixtures, random modules, noise strings and the modules shipped with CMake are validated character step by character step by TLC (TraceLex.tla); corpus modules that CMake itself parses must be processed cleanly.",
             "class alphabet; bracket levels {0,1,2} in generation ({0,1,2,4,40,70,71} for the corpus); legacy constructs and BOM out of scope", "4 C05"),
